@@ -323,6 +323,8 @@ type pair struct {
 	hist       []req // requests the client sent (for replays)
 	cW, sW     *side // write bookkeeping
 	cR, sR     []byte
+	readBuf    int  // size of the reader's buffer (0 = 64 KiB)
+	lazy       bool // the readers read only at the end (data accumulates in the in-queues)
 }
 
 type req struct {
@@ -388,6 +390,9 @@ func (p *pair) exchange(f world.Fate) error {
 
 func (p *pair) drainReads() {
 	buf := make([]byte, 65536)
+	if p.readBuf > 0 {
+		buf = make([]byte, p.readBuf)
+	}
 	for p.cIn.HasData() {
 		n, _ := p.cIn.Read(buf)
 		p.cR = append(p.cR, buf[:n]...)
@@ -409,6 +414,9 @@ type CaseB struct {
 	// long run with ONE fault: the Try-th exchange of packet number At gets Fate (Period 0)
 	At  int `json:"at,omitempty"`
 	Try int `json:"try,omitempty"`
+	// reader shape (Layer "B"): buffer size (0 = 64 KiB) and whether it reads only at the end
+	ReadBuf int  `json:"read_buf,omitempty"`
+	Lazy    bool `json:"lazy,omitempty"`
 }
 
 func (c CaseB) String() string {
@@ -418,6 +426,9 @@ func (c CaseB) String() string {
 	if c.Layer == "B-long" {
 		return fmt.Sprintf("B-long start=%d packets=%d fate=%s every %d", c.Start, c.Packets, world.Fate(c.Fate), c.Period)
 	}
+	if c.ReadBuf > 0 || c.Lazy {
+		return fmt.Sprintf("B start=%d ops=%s readbuf=%d lazy=%v", c.Start, c.Ops, c.ReadBuf, c.Lazy)
+	}
 	return fmt.Sprintf("B start=%d ops=%s", c.Start, c.Ops)
 }
 
@@ -426,7 +437,9 @@ func (p *pair) write(s *side, q *util.OutQueue, data []byte) {
 }
 
 func (p *pair) check(phase string, final bool) (string, string) {
-	p.drainReads()
+	if final || !p.lazy {
+		p.drainReads()
+	}
 	for _, d := range []struct {
 		name string
 		w    *side
@@ -453,6 +466,7 @@ func (p *pair) check(phase string, final bool) (string, string) {
 func executeB(t *testing.T, c CaseB) (kind, detail string, steps int) {
 	res := bubble.Run(t, func() {
 		p := newPair(c.Start)
+		p.readBuf, p.lazy = c.ReadBuf, c.Lazy
 		cOff, sOff := 0, 0
 		for i, ch := range c.Ops {
 			switch {
@@ -701,6 +715,31 @@ func TestCheck(t *testing.T) {
 				idx++
 			}
 			if len(prefix) == depth || (!r.Thorough() && st != 0 && len(prefix) == depth-1) {
+				return
+			}
+			for _, ch := range alpha {
+				rec(prefix + string(ch))
+			}
+		}
+		rec("")
+	}
+	// Layer B (i'): the same sequences (one level shallower) with readers whose buffer is smaller
+	// than a chunk / than what has accumulated, reading at every step or only at the end
+	for _, rb := range []struct {
+		buf  int
+		lazy bool
+	}{{1, false}, {3, false}, {5, true}, {0, true}} {
+		var rec func(prefix string)
+		rec = func(prefix string) {
+			if len(prefix) > 0 {
+				if r.Mine(idx) {
+					c := CaseB{Layer: "B", Start: 65533, Ops: prefix, ReadBuf: rb.buf, Lazy: rb.lazy}
+					k, d, s := executeB(t, c)
+					recB(c, k, d, s)
+				}
+				idx++
+			}
+			if len(prefix) == depth-1 {
 				return
 			}
 			for _, ch := range alpha {
